@@ -207,6 +207,7 @@ func run(t *tape.Tape, cfg sim.Config, listen bool) (res sim.Result) {
 	if t.Chance(1, 5) {
 		// guest-chosen debug sections (read when a stack trace is built): rows without a file
 		r.dwarf = true
+		r.dwarfKind = t.Choose(3)
 		res.Stat("probe.degenerate_dwarf_sections", 1)
 	}
 	r.setup([]*plan.Plan{pa, pa, pb}, []string{"a", "", "b"}, []int{-1, -1, 0})
